@@ -33,16 +33,21 @@ RULE = ('OrderedSet correspondence: random operation histories (add/discard/remo
         'operator cases (| & - ^ == [] reversed len in, argument given as list, OrderedSet or builtin set); '
         'non-trivial = distinct history with at least one removing operation and a non-empty final set, or a binary '
         'operator case with two non-empty operands.  Search: every (program, target, opt) job counts once per '
-        'compared pair of interpreter configurations.')
-EXPLANATION = ('Partial: Coq theorems cover the OrderedSet class and four set-consuming sites (assign_colors, '
-               'callee-saved selection, arm push mask, mem2reg place_phi_nodes) under an arbitrary enumeration order of '
-               'the builtin sets. CPython hashing, id(), the allocator and every other pass are NOT modelled: they '
-               'are exercised by compiling a fixed program set in fresh interpreters under several PYTHONHASHSEED '
-               'values and allocation histories and comparing serialized objects; the ast site inventory against a '
-               'reviewed table detects newly introduced unordered iterations.')
+        'compared pair of interpreter configurations (object files for x86_64/arm/riscv, wasm bytes, python text, '
+        'IR text at -O0/1/2, BURG generator text).')
+EXPLANATION = ('Partial: Coq theorems cover the OrderedSet class (incl. the __reversed__ defect: refuted as implemented, '
+               'proved for the repair) and the set-consuming sites assign_colors, callee-saved selection, arm push mask, '
+               'mem2reg place_phi_nodes, burg check_tree_defined and the relooper\'s follows_loop under an arbitrary '
+               'enumeration order of the builtin sets. CPython hashing, id(), the allocator and every other pass are NOT '
+               'modelled: they are exercised by compiling a fixed program set in fresh interpreters under several '
+               'PYTHONHASHSEED values and allocation histories and comparing, byte for byte, the serialized objects '
+               '(x86_64, arm, riscv; stm8/mcs6500 only fail consistently), the wasm module bytes (ir_to_wasm), the '
+               'generated python text (ir_to_python, minus its wall-clock header line), the IR text after '
+               'api.optimize at levels 0/1/2 and the text emitted by the BURG generator; the ast site inventory '
+               '(80 sites, all classified) against a reviewed table detects newly introduced unordered iterations.')
 TRUSTED = ['hand models coq/Model/OrderedSet.v and coq/Model/C30Sites.v (OrderedSet checked against the class per run; '
            'place_phi_nodes checked against the real method with hash-controlled fake blocks per run; assign_color, '
-           'callee_saved, reg_list_to_mask by reading)',
+           'callee_saved, reg_list_to_mask, check_tree_defined (burg), follows_loop (relooper) by reading)',
            'CPython Lib/_collections_abc.py mixin semantics (pop takes the first element of iteration, |= adds in '
            'iteration order, & follows the right operand)',
            'tools/props/c30_scan.py name-based type inference (over-inclusive, not complete: a set passed through an '
@@ -99,6 +104,21 @@ def site_table_check(ctx, sites):
             ctx.failed_stages.append(('sites', 'manual site anchor vanished: %s %s (model %s is stale)' % (
                 m['file'], m['anchor_regex'], m.get('theorem', '?'))))
             ctx.log('manual site anchor vanished:', m['file'], m['anchor_regex'])
+    # "dead code" classifications: the function must still have no caller in the package
+    needs = sorted({e['requires_no_caller'] for s in sites for e in [entries.get(s['key'])]
+                    if e and e.get('requires_no_caller')})
+    for fn in needs:
+        pat = re.compile(r'(?<![A-Za-z0-9_])%s\(' % re.escape(fn))
+        callers = []
+        for root, _, files in os.walk(os.path.join(REPO, 'ppci')):
+            for f in files:
+                if f.endswith('.py'):
+                    for i, line in enumerate(open(os.path.join(root, f), encoding='utf-8'), 1):
+                        if pat.search(line) and not line.lstrip().startswith(('def ', '#')):
+                            callers.append('%s:%d' % (os.path.relpath(os.path.join(root, f), REPO), i))
+        if callers:
+            ctx.failed_stages.append(('sites', '%s classified as dead code but is called at %s' % (fn, callers[:3])))
+            ctx.log('dead-code classification broken:', fn, 'called at', callers[:3])
     stale = sorted(k for k in entries if k not in {s['key'] for s in sites})
     stats['stale_table_entries'] = len(stale)
     ctx.cov['stages']['site_table'] = stats
@@ -255,6 +275,14 @@ def orderedset_correspondence(ctx):
         if k not in seen and val[0] and any(o[0] in ('discard', 'remove', 'pop', 'isub', 'iand', 'clear') for o in ops):
             nontriv += 1
         seen.add(k)
+    # __reversed__: as it was (first element only, c30_orderedset_reversed_refuted) or repaired
+    probe = list(reversed(OrderedSet([3, 1, 2])))
+    rev_model = 'os_reversed' if probe == [3] else 'os_reversed_fixed'
+    ctx.cov['stages']['orderedset_reversed'] = {'probe': probe, 'model': rev_model}
+    if probe != [2, 1, 3]:
+        ctx.violation({'fn': 'OrderedSet.__reversed__', 'key': 'orderedset-reversed', 'args': [3, 1, 2],
+                       'expected': [2, 1, 3], 'actual': probe,
+                       'how_to_replay': 'list(reversed(ppci.utils.collections.OrderedSet([3, 1, 2])))'})
     # binary operators and accessors
     nb = 360 if ctx.quick() else 2000
     opdist = {}
@@ -297,7 +325,7 @@ def orderedset_correspondence(ctx):
             r = s[idx]
             val, term = (None if r is None else key(r)), 'os_getitem %s (%d)' % (_zl(sl), idx)
         elif opn == 'reversed':
-            val, term = [key(e) for e in reversed(s)], 'os_reversed %s' % _zl(sl)
+            val, term = [key(e) for e in reversed(s)], '%s %s' % (rev_model, _zl(sl))
         elif opn == 'len':
             val, term = len(s), 'os_len %s' % _zl(sl)
         elif opn == 'contains':
@@ -469,6 +497,27 @@ def job_list(ctx, thorough):
     jobs.append({'id': 'loops-debug/x86_64/O1', 'lang': 'c', 'src': c30_programs.LOOPS, 'march': 'x86_64', 'opt': 1,
                  'debug': True})
     sources['loops-debug'] = c30_programs.LOOPS
+    # other outputs of the pipeline: wasm binary (relooper), generated python text, optimized IR text per level
+    hand = [(n, s) for n, s in progs if not n.startswith('gen')] + [p for p in progs if p[0] == 'gen0']
+    for name, src in hand:
+        for opt in [0, 2]:
+            jobs.append({'id': '%s/wasm/O%d' % (name, opt), 'lang': 'c', 'backend': 'wasm', 'src': src,
+                         'march': 'x86_64', 'opt': opt})
+            jobs.append({'id': '%s/python/O%d' % (name, opt), 'lang': 'c', 'backend': 'python', 'src': src,
+                         'march': 'x86_64', 'opt': opt})
+        for opt in [0, 1, 2]:
+            jobs.append({'id': '%s/irtext/O%d' % (name, opt), 'lang': 'c', 'backend': 'irtext', 'src': src,
+                         'march': 'arm' if name == 'control' else 'x86_64', 'opt': opt})
+    # back ends with formerly unreviewed set sites; they do not compile the samples today (the recorded
+    # exception type must at least be the same), a working back end would be compared like the others
+    if not thorough:
+        for name, src in hand[:2]:
+            for march in ('stm8', 'mcs6500'):
+                jobs.append({'id': '%s/%s/O0' % (name, march), 'lang': 'c', 'src': src, 'march': march, 'opt': 0})
+    brg = os.path.join(REPO, 'test', 'data', 'sample4.brg')
+    if os.path.exists(brg):
+        jobs.append({'id': 'burg/sample4.brg/text', 'lang': 'brg', 'backend': 'burg', 'src': brg, 'march': '-', 'opt': 0})
+        sources['burg'] = 'test/data/sample4.brg'
     for name, paths in c30_programs.c3_sets(REPO).items():
         if not thorough and name != 'c3-snake':
             continue
@@ -510,8 +559,10 @@ def search_start(ctx):
         configs = [(0, 0), (1, 0), (0, 5)]
     t0 = time.time()
     procs = []
+    import tempfile
+    priv = tempfile.mkdtemp(prefix='c30-search-')      # private: concurrent ./check runs wipe .work/C30
     for c in configs:
-        outp = os.path.join(ctx.work, 'search_%d_%d.json' % c)
+        outp = os.path.join(priv, 'search_%d_%d.json' % c)
         procs.append((c, run_worker_async({'perturb': c[1], 'jobs': jobs, 'ir': irjobs}, c[0], outp), outp))
     return (jobs, irjobs, sources, configs, t0, procs)
 
@@ -528,6 +579,9 @@ def search(ctx, started=None):
             ctx.log('search worker failed for seed/perturb', c, repr(ex), err)
             ctx.failed_stages.append(('search', 'worker for PYTHONHASHSEED=%d perturb=%d did not produce a result: %s' % (
                 c[0], c[1], err[-300:])))
+    if procs:
+        import shutil
+        shutil.rmtree(os.path.dirname(procs[0][2]), ignore_errors=True)
     base_c = configs[0]
     base = results.get(base_c)
     ndiff, ncmp, nerr = 0, 0, 0
@@ -544,16 +598,23 @@ def search(ctx, started=None):
                     isir = jid.startswith('ir:')
                     prog = jid[3:] if isir else jid.split('/')[0]
                     parts = jid.split('/')
-                    rec = {'fn': 'ir_text' if isir else 'object_bytes', 'key': ('ir_text/' if isir else 'object/') + jid,
+                    march = parts[1] if len(parts) > 1 else None
+                    kind = {'wasm': ('wasm_bytes', 'wasm module bytes (ir_to_wasm)'),
+                            'python': ('python_text', 'generated python text (ir_to_python)'),
+                            'irtext': ('ir_text', 'optimized IR text'),
+                            'sample4.brg': ('burg_generator_text', 'text emitted by the BURG generator')}.get(
+                        march, ('ir_text', 'optimized IR text') if isir else ('object_bytes', 'serialized object file'))
+                    rec = {'fn': kind[0], 'key': kind[0] + '/' + jid,
                            'job': jid, 'program': prog,
-                           'march': parts[1] if len(parts) > 1 else None, 'opt': parts[2] if len(parts) > 2 else 'O2',
+                           'march': march, 'opt': parts[2] if len(parts) > 2 else 'O2',
                            'configs': [{'PYTHONHASHSEED': base_c[0], 'perturb': base_c[1]},
                                        {'PYTHONHASHSEED': c[0], 'perturb': c[1]}],
                            'results': [base[jid], r.get(jid)],
                            'source': sources.get(prog) if not prog.startswith('c3-') else 'C3 sample set ' + prog,
-                           'what': ('optimized IR text' if isir else 'serialized object file') +
-                                   ' differs between two interpreter configurations',
+                           'what': kind[1] + ' differs between two interpreter configurations',
                            'how_to_replay': './check C30 --replay <this file>'}
+                    if kind[0] == 'burg_generator_text':
+                        rec['key'] = 'burg_generator_text'
                     ctx.violation(rec)
     ctx.cov['evaluations'] += ncmp
     ctx.cov['distinct_nontrivial'] += len(jobs) - nerr
@@ -567,7 +628,7 @@ def search(ctx, started=None):
 
 def replay(rec):
     """re-run one differing job under its two configurations"""
-    if rec.get('fn') not in ('object_bytes', 'ir_text'):
+    if rec.get('fn') not in ('object_bytes', 'ir_text', 'wasm_bytes', 'python_text', 'burg_generator_text'):
         print(json.dumps(rec, indent=1)[:4000])
         return 0
     ensure_repo_on_path()
@@ -622,14 +683,18 @@ def run(ctx):
 MANIFEST = {
     'text': 'partial: Coq theorems that ppci.utils.collections.OrderedSet enumerates, after any history of add/discard/remove/'
             'pop/clear/|=/-=/&=, exactly the insertion-timestamp order (a function of the history, never of hashes), without '
-            'duplicates, refining the mathematical set; that OrderedSet - set, the register pick of assign_colors, the '
-            'callee-saved selection of gen_prologue and the arm push mask do not depend on the enumeration order of the builtin '
-            'sets involved; that mem2reg place_phi_nodes did (refuted, witness replayed on the real method) and the repaired '
-            'version does not. Everything else is search: a fixed program set compiled in fresh interpreters under several '
-            'PYTHONHASHSEED values and allocation histories with byte comparison of the serialized objects, plus an ast '
-            'inventory of set/dict enumeration sites checked against a reviewed table.',
-    'note': 'trusted: Coq kernel; hand models (OrderedSet cross-checked per run on ~1200 random cases incl. adversarial __hash__; '
-            'place_phi_nodes cross-checked with hash-controlled fake blocks); CPython hashing/id()/allocator are not modelled; '
-            'the site scanner is a heuristic; classifications without a theorem are review. No axioms.',
+            'duplicates, refining the mathematical set (its __reversed__ is refuted as implemented and proved for the repair); '
+            'that OrderedSet - set, the register pick of assign_colors, the callee-saved selection of gen_prologue, the arm push '
+            'mask, burg\'s rule check and the relooper\'s follows_loop do not depend on the enumeration order of the builtin sets '
+            'involved; that mem2reg place_phi_nodes did (refuted, witness replayed on the real method) and the repaired version '
+            'does not. Everything else is search: a fixed program set compiled in fresh interpreters under several '
+            'PYTHONHASHSEED values and allocation histories with byte comparison of serialized objects, wasm bytes, generated '
+            'python text, optimized IR text per level and BURG generator text, plus an ast inventory of set/dict enumeration '
+            'sites (all classified) checked against a reviewed table.',
+    'note': 'trusted: Coq kernel; hand models (OrderedSet cross-checked per run on ~800 random cases incl. adversarial __hash__; '
+            'place_phi_nodes cross-checked with hash-controlled fake blocks; burg check / follows_loop / assign_color / '
+            'callee_saved / mask models by reading); CPython hashing/id()/allocator are not modelled; the site scanner is a '
+            'heuristic; classifications without a theorem are review. Open known findings: OrderedSet.__reversed__ and the '
+            'BURG generator text order (fix diffs delivered). No axioms.',
     'technique': 'Coq refinement proof of OrderedSet + order-independence lemmas per site + multi-seed differential compilation',
 }
